@@ -37,6 +37,11 @@ def realize(cc, value, node=None):
     if isinstance(value, DigestSpec):
         alg = cc.ChallengeField.ALGORITHMS[value.alg]
         salt = value.salt
+        if getattr(value, "raw", False):
+            import hashlib
+
+            secret = value.secret.encode() if isinstance(value.secret, str) else bytes(value.secret)
+            return cc.DigestValue(bytes(salt), hashlib.new(value.alg, bytes(salt) + secret).digest(), alg)
         return cc.DigestValue.create(value.secret, alg, salt=salt)
     if isinstance(value, Opaque):
         return object()
@@ -287,6 +292,8 @@ def _fill(cc, schema, node, built, prefix, via=""):
                 kw = {}
                 if "env" in ch:
                     kw["env"] = ch["env"]
+                if ch.get("ctor_key"):
+                    kw["key"] = key  # the key is also given to the constructor (as a schema built on its own would have it)
                 sub = cc.Schema(dynamic=ch.get("dynamic", False), **kw)
                 put(key, sub)
             _fill(cc, sub, ch, built, path)
